@@ -1,12 +1,13 @@
 #!/bin/sh
 # tools/try_patch.sh <patch.diff> <runs|0=default> <PROP> [PROP...] : run checks against a scratch copy of /repo with the patch applied
 P="$1"; RUNS="$2"; shift 2
+HERE="$(cd "$(dirname "$0")/.." && pwd)"
 T=$(mktemp -d /tmp/gbsim-try-XXXXXX)
 cp -r /repo/src "$T/src"; rm -rf "$T/src/gbigsmiles/__pycache__"
 (cd "$T" && git apply --include='src/*' "$P") || { echo "patch failed"; rm -rf "$T"; exit 3; }
 if [ "$RUNS" != "0" ]; then export GBSIM_RUNS="$RUNS"; fi
 for PID in "$@"; do
-  GBSIM_REPO="$T" GBSIM_EVIDENCE_DIR="$T/ev" GBSIM_REPLAY_DIR="$T/rp" /verif/check "$PID" quick > "$T/out.txt" 2>&1; RC=$?
+  GBSIM_REPO="$T" GBSIM_EVIDENCE_DIR="$T/ev" GBSIM_REPLAY_DIR="$T/rp" "$HERE/check" "$PID" quick > "$T/out.txt" 2>&1; RC=$?
   grep -v conda "$T/out.txt" | grep -E "VIOLATION|invariant=|HARNESS|\[gbsim\] C" | cut -c1-330
   echo "   -> $PID exit=$RC"
 done
